@@ -130,6 +130,18 @@ static void onetimeauth_stream(Ctx &c) {
 static void onetimeauth_carry(Ctx &c) {
     Bytes key(32, 0); key[0] = (uint8_t) (1 + c.r.below(2)); for (int i = 16; i < 32; i++) key[(size_t) i] = (uint8_t) c.r.next(); if (c.chance(3)) for (int i = 16; i < 32; i++) key[(size_t) i] = 0xff;
     int k = (int) c.r.below(15) - 6;
+    if (c.chance(3)) {   // limb saturation: r = 1, blocks (V, 0, 0, 0); the 2^130 wrap carries into limbs that are all ones (26- and 44-bit limbs)
+        int w = c.r.below(2) ? 26 : 44; int j = w == 26 ? 1 + (int) c.r.below(3) : 1; int kk = 1 + (int) c.r.below(6); bool odd = c.r.coin();
+        unsigned __int128 V = ((unsigned __int128) 1 << w) - (unsigned) kk;
+        for (int l = 1; l <= j; l++) V += ((unsigned __int128) 1 << (w * (l + 1))) - ((unsigned __int128) 1 << (w * l));
+        if (odd && w * (j + 1) < 128) V += (unsigned __int128) 1 << (w * (j + 1));
+        Bytes mm(64, 0); for (int i = 0; i < 16; i++) mm[(size_t) i] = (uint8_t) (V >> (8 * i));
+        key[0] = 1;
+        uint8_t *kp2 = c.inb(key), *mp2 = c.inb(mm), *tag2 = c.out(16);
+        c.rc(crypto_onetimeauth(tag2, mp2, 64, kp2)); c.rc(crypto_onetimeauth_verify(tag2, mp2, 64, kp2));
+        auto *st2 = c.state<crypto_onetimeauth_state>(); c.rc(crypto_onetimeauth_init(st2, kp2)); c.rc(crypto_onetimeauth_update(st2, mp2, 32)); c.rc(crypto_onetimeauth_update(st2, mp2 + 32, 32)); c.rc(crypto_onetimeauth_final(st2, c.out(16)));
+        return;
+    }
     Bytes m(48, 0); m[15] = 0x80; for (int i = 17; i < 31; i++) m[(size_t) i] = 0xff; m[16] = 0xf0; m[31] = 0x7f; m[32] = (uint8_t) (11 + k);
     if (key[0] == 2) { /* r = 2 doubles the accumulator each block: still a carry-heavy input, different target */ }
     size_t tail = c.r.below(20); Bytes t = c.r.bytes(tail); m.insert(m.end(), t.begin(), t.end());
@@ -169,7 +181,7 @@ STREAM_ENTRY(salsa208, 8)
     static void stream_##P(Ctx &c) { size_t l = c.len(); uint8_t *k = c.in(32), *n = c.in(NB), *m = c.in(l);                                    \
         uint64_t ic = c.r.below(3) == 0 ? 0xfffffff0ULL + c.r.below(32) : (c.r.below(3) == 0 ? c.r.next() : c.r.below(100));                    \
         /* the 2^32 carry placed where a vector stride (4 or 8 blocks) or the tail after it begins */                                            \
-        if (c.r.below(4) == 0) { uint64_t stride = c.r.below(2) ? 4 : 8, full = (l / 64) / stride * stride; uint64_t hi = 1 + c.r.below(3); uint64_t back = c.r.below(2) ? full : 0; if (!back) back = c.r.below(full + 1); uint64_t jit = c.r.below(3); ic = 0x100000000ULL * hi - back + jit - 1; } \
+        if (c.r.below(2) == 0) { uint64_t stride = c.r.below(2) ? 4 : 8, full = (l / 64) / stride * stride; uint64_t hi = c.r.below(4); uint64_t back = c.r.below(2) ? full : 0; if (!back) back = c.r.below(full + 1); uint64_t jit = c.r.below(4); jit = jit < 2 ? 1 : (jit == 2 ? 0 : 2); ic = 0x100000000ULL * hi - back + jit - 1; } \
         if (sizeof(ICT) == 4) { uint64_t blocks = (l + 63) / 64; ic &= 0xffffffffULL; if (ic + blocks > 0x100000000ULL) ic = 0x100000000ULL - blocks; if (ic > 0xffffffffULL) ic = 0; }  \
         c.rc(crypto_stream_##P(c.out(l), l, n, k)); c.rc(crypto_stream_##P##_xor(c.out(l), m, l, n, k)); c.rc(crypto_stream_##P##_xor_ic(c.out(l), m, l, n, (ICT) ic, k)); }
 STREAM_IC_ENTRY(chacha20, 8, uint64_t)
@@ -256,7 +268,9 @@ static Bytes x25519_point(Ctx &c) {
     Bytes b(32);
     switch (c.r.below(8)) {
     case 4: break;
-    case 5: { const char *h = LOW[c.r.below(7)]; for (int i = 0; i < 32; i++) { unsigned v; sscanf(h + 2 * i, "%2x", &v); b[(size_t) i] = (uint8_t) v; } if (c.r.below(2)) b[31] |= 0x80; break; }
+    case 5: { const char *h = LOW[c.r.below(7)]; for (int i = 0; i < 32; i++) { unsigned v; sscanf(h + 2 * i, "%2x", &v); b[(size_t) i] = (uint8_t) v; } if (c.r.below(2)) b[31] |= 0x80;
+              if (c.r.below(3) == 0) { b[31] = (uint8_t) c.r.next(); if (c.r.below(2)) b[30] = (uint8_t) c.r.next(); }      // starts like a low-order encoding, is none
+              break; }
     case 6: for (auto &x : b) x = c.r.below(3) == 0 ? 0x80 : 0x00; if (c.r.below(2)) b[0] |= 1; break;
     case 7: std::fill(b.begin(), b.end(), 0xff); b[31] = c.r.below(2) ? 0x7f : 0xff; b[0] = (uint8_t) (0xed + c.r.below(19)) ; if (c.r.below(3) == 0) b[0] = (uint8_t) (0xec - c.r.below(3)); break;
     default: c.r.fill(b.data(), 32); break;
